@@ -86,6 +86,13 @@ def check_chunked(sig, cuts, ctx, detectors=_rf.DETECTORS, prefixes=True):
         got = _rf.snapshot(det, d)
         _compare(det, got, whole, "at the end", ctx, sig)
 
+        if len(cuts) >= 1:
+            # (d) the same partition with every chunk in another container kind / dtype
+            dm, kinds = _rf.run_chunks_mixed(det, chunks)
+            if len(set(kinds)) > 1:
+                ctx.label("mixed_chunk_dtypes")
+            _compare(det, _rf.snapshot(det, dm), whole, "at the end with chunk kinds %r" % (kinds,), ctx, sig)
+
         if det == "fkm":
             continue
         # (c) chunk bookkeeping
